@@ -127,7 +127,12 @@ func (c *ConditionBoolean) EncodeBinary(w *io.BinWriter) {
 // DecodeBinarySpecific implements the WitnessCondition interface allowing to
 // deserialize condition-specific data.
 func (c *ConditionBoolean) DecodeBinarySpecific(r *io.BinReader, maxDepth int) {
-	*c = ConditionBoolean(r.ReadBool())
+	b := r.ReadB()
+	if r.Err == nil && b > 1 {
+		r.Err = errors.New("invalid boolean value")
+		return
+	}
+	*c = ConditionBoolean(b == 1)
 }
 
 // MarshalJSON implements the json.Marshaler interface.
